@@ -845,7 +845,8 @@ class Threads(EngineBase):
                 # two worker threads that the application gave one name
                 nthreads = 3
                 tnames = {"1": "sampler", "2": "sampler"}
-            for t in range(nthreads):
+            pshare = rng.random() < 0.3
+            for t in range(nthreads if not pshare else 0):
                 ops = []
                 for _ in range(rng.randrange(2, 5)):
                     if rng.random() < 0.6:
@@ -860,6 +861,24 @@ class Threads(EngineBase):
                                                         0.1]),
                                 "percpu": rng.random() < 0.4})
                 threads.append(ops)
+            if pshare:
+                # several threads poll one Process object (non-blocking
+                # form) while it burns CPU and time passes
+                tnames = None
+                for t in range(nthreads):
+                    ops = []
+                    for _ in range(rng.randrange(2, 5)):
+                        if rng.random() < 0.8:
+                            ops.append({"op": "ev", "ev": {
+                                "ev": "proc_tick", "pid": T,
+                                "utime": rng.randrange(0, 120),
+                                "stime": rng.randrange(0, 40)}})
+                        if rng.random() < 0.8:
+                            ops.append({"op": "ev", "ev": {
+                                "ev": "advance",
+                                "dt": rng.choice([0.5, 1.0, 2.0, 0.25])}})
+                        ops.append({"op": "proc_cpu_percent"})
+                    threads.append(ops)
         elif prog == "C10t":
             world = None
             nthreads = 2
@@ -901,6 +920,9 @@ class Threads(EngineBase):
                 else 1000 for _ in range(16)]
         if prog == "C07t" and tnames:
             plan["world"]["thread_names"] = tnames
+        if prog == "C07t" and pshare:
+            plan["pshare"] = True
+            plan["world"]["procs"] = [{"pid": T, "ppid": 1, "comm": "burn"}]
         return plan
 
     # ------------------------------------------------------------------
@@ -923,7 +945,7 @@ class Threads(EngineBase):
                          "api": api, "msg": msg})
 
         shared = {}
-        if prog in ("C16t", "C02t", "C05t", "C14t"):
+        if prog in ("C16t", "C02t", "C05t", "C14t") or plan.get("pshare"):
             k.begin_op(0)
             shared["p"] = psutil.Process(T)
             k.end_op()
@@ -1090,6 +1112,16 @@ class Threads(EngineBase):
                 else:
                     psutil.process_iter.cache_clear()
                     rec["out"] = ("value", None)
+            elif prog == "C07t" and kind == "proc_cpu_percent":
+                pr0 = len(k.procstat_reads)
+                a0 = len(k.acclog)
+                try:
+                    rec["out"] = ("value", shared["p"].cpu_percent(None))
+                finally:
+                    rec["own_pt"] = [r for r in k.procstat_reads[pr0:]
+                                     if r[0] == t and r[2] == T]
+                    rec["own_st"] = [a[9] for a in k.acclog[a0:]
+                                     if a[0] == t and a[3] == "clock"]
             elif prog == "C07t":
                 fn = getattr(psutil, kind)
                 rec["out"] = ("value", fn(interval=op["interval"],
@@ -1482,7 +1514,69 @@ class Threads(EngineBase):
               "the object's process is %s" % (
                   r, "still in the table" if listed else "gone"))
 
+    def check_C07t_shared(self, W, psutil, k, plan, records, V, probes,
+                          keys):
+        """Several threads, one Process object: every answer is the usage
+        between this call's own sample and the sample some other call on the
+        object took earlier (0.0 while no call has finished)."""
+        from ..kernel import CLK_TCK
+        allrecs = [r for recs in records for r in recs
+                   if r["op"]["op"] == "proc_cpu_percent" and "out" in r]
+        for rec in allrecs:
+            out = rec["out"]
+            if out[0] == "exc":
+                V("C07.exception", [type(out[1]).__name__, "threads",
+                                    "shared_process"], "proc_cpu_percent",
+                  "thread %d: Process.cpu_percent() raised %r" % (
+                      rec["t"], out[1]))
+                continue
+            if not rec.get("own_pt") or not rec.get("own_st"):
+                continue
+            v = out[1]
+            st2, pt2 = rec["own_st"][-1], rec["own_pt"][-1][3]
+            cands = []
+            first_ok = not any(o["nacc_end"] <= rec["nacc0"]
+                               for o in allrecs if o is not rec)
+            if first_ok:
+                cands.append(0.0)
+            for o in allrecs:
+                if o is rec or not o.get("own_pt") or not o.get("own_st") \
+                        or o["nacc0"] >= rec["nacc_end"]:
+                    continue
+                st1, pt1 = o["own_st"][-1], o["own_pt"][-1][3]
+                dt = st2 - st1
+                if dt < 0:
+                    continue
+                cands.append(100.0 * (pt2 - pt1) / CLK_TCK / dt if dt > 0
+                             else 0.0)
+            torn = []
+            others = [o for o in allrecs if o is not rec and o.get("own_pt")
+                      and o.get("own_st") and o["nacc0"] < rec["nacc_end"]]
+            for o1 in others:
+                for o2 in others:
+                    dt = st2 - o1["own_st"][-1]
+                    if o1 is not o2 and dt > 0:
+                        torn.append(100.0 * (pt2 - o2["own_pt"][-1][3]) /
+                                    CLK_TCK / dt)
+            if not isinstance(v, float) or v < 0 or not any(
+                    abs(v - c) <= 0.051 for c in cands):
+                V("C07.process_percent", ["threads", "shared_process"] + (
+                    ["timestamp_and_cpu_times_of_different_calls"]
+                    if isinstance(v, float) and any(
+                        abs(v - c) <= 0.051 for c in torn) else []),
+                  "proc_cpu_percent", "thread %d: Process.cpu_percent() -> "
+                  "%r; own sample (t=%r, %d ticks) against the samples of "
+                  "the other calls gives %r" % (
+                      rec["t"], v, st2, pt2,
+                      sorted(set(round(c, 1) for c in cands))))
+            else:
+                probes["shared_process_checked"] = probes.get(
+                    "shared_process_checked", 0) + 1
+
     def check_C07t(self, W, psutil, k, plan, records, V, probes, keys):
+        if plan.get("pshare"):
+            return self.check_C07t_shared(W, psutil, k, plan, records, V,
+                                          probes, keys)
         boot = W.boot
         nf = boot["cpu_fields"]
         cpu_ids = list(boot["cpu_ids"])
@@ -1809,7 +1903,8 @@ Threads.PROBES_BY_PROP = {
             "voluntary_switches", "block_exit_exit_exc"],
     "C04": ["voluntary_switches", "eventual_coherence_checked",
             "identity_through_threads_checked", "stale_objects_rechecked"],
-    "C07": ["voluntary_switches", "per_thread_checked"],
+    "C07": ["voluntary_switches", "per_thread_checked",
+            "shared_process_checked"],
     "C10": ["voluntary_switches", "concurrent_checked", "lock_contended"],
 }
 
